@@ -383,6 +383,7 @@ class World:
         self.np.hooks.update(np_hooks or {})
         self.loaded = {}  # 'pkg.mod:qual' -> source hash (functions whose real source was executed)
         self.rt = LoopRuntime({})
+        self.np.hooks.setdefault("ndarray_new", self._ndarray_new)
         self.stub_calls = {}
 
     def module(self, modname):
@@ -393,6 +394,15 @@ class World:
     def fn(self, ref):
         modname, qual = ref.split(":")
         return self.module(modname).get(qual)
+
+    def _ndarray_new(self, clsobj, shape, dtype=float, buffer=None, **kw):
+        """np.ndarray.__new__(cls, shape, buffer=values, dtype=float) for a stand-in class: an Obj over its own store"""
+        if buffer is None or kw:
+            raise sym.EngineLimit("np.ndarray.__new__ of a stand-in class without a buffer")
+        o = Obj(self, clsobj._pv_real)
+        view, base = snp.make_store(np.asarray(buffer, dtype=object).ravel())
+        object.__getattribute__(o, "__dict__")["_pv_nd"] = view
+        return o
 
     def obj(self, ref, **attrs):
         modname, qual = ref.split(":")
@@ -438,7 +448,7 @@ class ShadowModule:
         text, tree, path = module_source(modname)
         self.tree = tree
         ns = dict(vars(self.real))
-        ns["__builtins__"] = SHADOW_BUILTINS
+        ns["__builtins__"] = dict(SHADOW_BUILTINS, __import__=self._import)
         ns["__pv"] = world.rt
         ns["__pv_super"] = lambda clsname, obj: _Super(world, self.modname, clsname, obj)
         self.ns = ns
@@ -464,6 +474,22 @@ class ShadowModule:
                 if nm and not k.startswith("__") and getattr(np, nm, None) is v and nm in snp.NP.__dict__:
                     ns[k] = getattr(world.np, nm)
         self._lazy_done = False
+
+    def _import(self, name, globals=None, locals=None, fromlist=(), level=0):
+        """`from .mod import X` inside a function body: names overridden for this module (World.names) win, beyond
+        functions resolve to their shadows, everything else is the real object"""
+        real = builtins.__import__(name, globals, locals, fromlist, level)
+        if not fromlist or not getattr(real, "__name__", "").startswith("beyond"):
+            return real
+        over = self.world.names.get(self.modname, {})
+        proxy = _ModProxy(self.world, real)
+
+        class _Imp:
+            def __getattr__(_s, attr):
+                if attr in over:
+                    return over[attr]
+                return getattr(proxy, attr)
+        return _Imp()
 
     def _finish(self):
         """replace beyond functions visible in this namespace by their shadows / stubs"""
@@ -586,10 +612,16 @@ class _Super:
                 return lambda *a, **k: None
             if name == "__setattr__":
                 return lambda n, v: object.__getattribute__(obj, "__dict__").__setitem__(n, v)
+            nd = object.__getattribute__(obj, "__dict__").get("_pv_nd") if isinstance(obj, Obj) else None
+            if nd is not None:
+                # the ndarray part of a stand-in for an ndarray subclass instance
+                return getattr(nd, name)
             raise AttributeError(name)
         kind, fn, _ = hit
         if kind == "staticmethod":
             return fn
+        if kind == "property":
+            return fn(obj)
         return types.MethodType(fn, obj)
 
 
@@ -622,6 +654,8 @@ def _class_lookup(world, real_cls, name, after=None):
             return ("property", getter, setter)
         d = decos(defs[0])
         fn = sm._make(qual)
+        if name == "__new__":
+            return ("staticmethod", fn, None)
         if "classmethod" in d:
             return ("classmethod", fn, None)
         if "staticmethod" in d:
@@ -692,6 +726,8 @@ def _forward(name):
         d = object.__getattribute__(self, "__dict__")
         hit = _class_lookup(d["_pv_world"], d["_pv_real"], name)
         if hit is None:
+            if d.get("_pv_nd") is not None and name not in ("__call__", "__eq__", "__ne__"):
+                return getattr(d["_pv_nd"], name)(*a, **k)
             if name in ("__eq__", "__ne__"):
                 return (self is a[0]) if name == "__eq__" else (self is not a[0])
             raise TypeError(f"{d['_pv_real'].__name__} has no {name} in its source")
@@ -729,7 +765,8 @@ class ClsObj:
         return self._pv_real.__name__
 
     def __call__(self, *a, **k):
-        o = Obj(self._pv_world, self._pv_real)
+        new = _class_lookup(self._pv_world, self._pv_real, "__new__")
+        o = new[1](self, *a, **k) if new is not None else Obj(self._pv_world, self._pv_real)
         hit = _class_lookup(self._pv_world, self._pv_real, "__init__")
         if hit is not None:
             hit[1](o, *a, **k)
